@@ -138,6 +138,7 @@ impl Runtime {
 
     fn enter_indirect(&mut self, line: Line) {
         self.cont = State::Stopped;
+        self.stack.clear();
         if line.is_empty() {
             if self.listing.remove(line.number()).is_some() {
                 self.dirty = true;
@@ -641,6 +642,10 @@ impl Runtime {
         if self.listing.remove_range(from..=to) {
             self.dirty = true;
             self.state = State::Stopped;
+            let event = self.r#end();
+            self.cont = State::Stopped;
+            self.stack.clear();
+            return Ok(event);
         }
         Ok(self.r#end())
     }
@@ -856,6 +861,8 @@ impl Runtime {
         let new_start = u16::try_from(self.stack.pop()?)?;
         self.listing.renum(new_start, old_start, step)?;
         self.dirty = true;
+        self.cont = State::Stopped;
+        self.stack.clear();
 
         self.state = State::Stopped;
         Ok(self.r#end())
